@@ -120,6 +120,21 @@ claim("C19", "proof",
       "Trusted: cargo feature resolution, rustc type checking. `Results unchanged` is decided as body identity of shared items, not by evaluating an operation corpus.",
       "compiler verdict over the configuration lattice + feature/module graph + cross-configuration body identity (static)", "DESIGN.md §4 C19")
 
+claim("C11", "translation_validation",
+      "Translation validation of every expansion that exists: for every macro instance compiled anywhere in the workspace (catalogue, astronomical crate, fixtures) and for a generated "
+      "witness corpus (attribute permutations, interleaved docs, non-ASCII symbols, 1000/1000./1000.0/1e3/1_000 and 0.001/1e-3 spellings, three code paths, both derivation forms), in both "
+      "back-ends: declaration (syn scanner) vs expansion (type-checked program) agree on variants, names, symbols, prefixes, scales as the literal's value in the amount type, order, "
+      "constants, code path and operator set; permutations of one base yield identical facts; the macro uses the stable sort and exactly three generators. Found and fixed a genuine defect "
+      "(digit-separator / suffixed literals under fpdec).",
+      "Quantifier over programs: only the instances in the tree and the fixed corpus (seeded by VERIF_SEED) — arbitrary random definitions are not decided. Trusted: rustc expansion and type checking.",
+      "translation validation between two independent extractors + type-checked witness corpus (static)", "DESIGN.md §4 C11")
+claim("C12", "other",
+      "Compile-fail witnesses with compiling twins: 36 malformed definitions (every defect class of the property x base definitions with / without reference unit / derived) plus the 13 tests/ui "
+      "programs, each type-checked on its own; verdict = rustc error with every primary span inside the offending definition, the well-formed twin compiles; for tests/ui the macro's own messages "
+      "and positions recorded in the repository must still be reported.",
+      "Quantifier over programs: only the witness corpus. Trusted: rustc/cargo JSON diagnostics.",
+      "compile-fail witnesses with compiling twins (type-check verdict only)", "DESIGN.md §4 C12")
+
 NOT_YET = "check not built yet (see DESIGN.md for the planned static analysis)"
 
 m = {
